@@ -293,6 +293,22 @@ func (e *Engine) getSearchState() *SearchState {
 	return state
 }
 
+// pikeSearchAt runs PikeVM.SearchAt on the PikeVM of a pooled SearchState.
+// Search paths must never search on e.pikevm: it is a single instance whose internal
+// scratch (thread queues, visited set) would be shared by all goroutines.
+func (e *Engine) pikeSearchAt(haystack []byte, at int) (int, int, bool) {
+	state := e.getSearchState()
+	defer e.putSearchState(state)
+	return state.pikevm.SearchAt(haystack, at)
+}
+
+// pikeSearchSlotsAt is pikeSearchAt for the SlotTable-based search (SearchModeFind).
+func (e *Engine) pikeSearchSlotsAt(haystack []byte, at int) (int, int, bool) {
+	state := e.getSearchState()
+	defer e.putSearchState(state)
+	return state.pikevm.SearchWithSlotTableAt(haystack, at, nfa.SearchModeFind)
+}
+
 // putSearchState returns a SearchState, trying the local cache first.
 // The local cache slot holds one state as a strong reference that survives GC.
 // Overflow goes to sync.Pool (may be collected by GC).
